@@ -323,7 +323,8 @@ func c03Wire(c *eng.Ctx, k *kvAnalysis) {
 	// the open path accepts exactly the constant the save path writes
 	for f := range dbReaders(c) {
 		found := false
-		eng.Instrs(f, func(in ssa.Instruction) {
+		// (the test may sit in a helper of the reading function)
+		eng.InstrsDeep(f, func(f *ssa.Function, in ssa.Instruction) {
 			ifi, ok := in.(*ssa.If)
 			if !ok {
 				return
